@@ -21,17 +21,24 @@ read) pair is recorded; then
     dep_graph never changes that cell's value."""
 import logging
 
-from harness.common import ensure_impl_on_path, known_predicate   # noqa: F401
+from harness import wbgen
+from harness.common import enc_val, ensure_impl_on_path, known_predicate   # noqa: F401
 from harness.props import c02 as g
 
-GEN_MODULES = ['excelformula']
-EXTRA_TARGETS = ('Proofs/C04.vo',)
+GEN_MODULES = ['excelformula', 'excelutil', 'aggregates', 'stats']
+EXTRA_TARGETS = ('Proofs/C04.vo', 'Proofs/C04Example.vo')
 ASSUMPTIONS = [
     "the read trace of the model is the set of _C_/_R_ call nodes of the emitted code (Python evaluates every "
     "argument; an exception can only shorten the trace); the containment of an intersection in its operands is "
     "C11_intersection",
-    "dep_graph construction (_process_gen_graph) and the influence consequence are not modelled: they are judged "
-    "by the oracle on real workbooks",
+    "dep_graph construction (_process_gen_graph), the reads of _evaluate/_evaluate_range and the influence "
+    "consequence are proved over the machine model coq/Model/Graph.v + coq/Model/ReadTrace.v (C04_edges, "
+    "C04_trace_*, C04_influence*); the model is tied to ExcelCompiler by the C01 differential run and, for the read "
+    "traces, by the graph-trace stream here (single-sheet single-column workbooks of harness/wbgen.py); on real "
+    "multi-sheet workbooks with names, unions and CSE members the same statements are judged by the oracle",
+    "C04_reads_are_edges takes the link between address texts and graph nodes (cell_map) and between a formula "
+    "cell's declared precedents and needed_addresses as hypotheses (declared_needed); the oracle checks them on "
+    "real workbooks (edge for every needed address)",
 ]
 
 REF_CELLS = ['A1', 'B2', 'C3', '$A$1', 'b2', '$B2', 'C$3', 'Sheet2!C3', 'Sheet2!$C$3', 'AA10']
@@ -346,6 +353,120 @@ def workbook_oracle(ctx):
         del wcase
 
 
+# ------------------------------------------------------------------ graph read traces (model vs implementation)
+def traced_compiler(owb):
+    """ExcelCompiler on the openpyxl workbook with every read recorded as (reader address, read address):
+    the reader is the formula cell being computed (pushed by the wrapped _eval) or the range node being
+    computed (pushed by the wrapped _evaluate_range); reads made with no reader (the top-level evaluate,
+    _process_gen_graph's evaluation of a new range) are not pairs.  Returns (compiler, trace list)."""
+    from pycel import ExcelCompiler
+    from pycel.excelformula import ExcelFormula
+    comp = ExcelCompiler(excel=owb)
+    trace, stack = [], []
+    orig_e, orig_r = comp._evaluate, comp._evaluate_range
+
+    def ev(addr):
+        if stack:
+            trace.append((stack[-1], str(addr)))
+        return orig_e(addr)
+
+    def evr(addr):
+        addr = str(addr)
+        if stack and stack[-1] != addr:
+            trace.append((stack[-1], addr))
+        stack.append(addr)
+        try:
+            return orig_r(addr)
+        finally:
+            stack.pop()
+    # instance attributes shadow the methods: _evaluate_range reads its members through self._evaluate,
+    # _evaluate hands a range node to self._evaluate_range
+    comp._evaluate, comp._evaluate_range = ev, evr
+    ectx = ExcelFormula.build_eval_context(ev, evr, comp.log, plugins=comp._plugin_modules)
+
+    def _eval(cell, cse_array_address=None):
+        stack.append(cell.address.address)
+        try:
+            return ectx(cell.formula, cse_array_address=cse_array_address)
+        finally:
+            stack.pop()
+    assert comp._eval is None
+    comp._eval = _eval
+    return comp, trace
+
+
+def graph_traces(ctx):
+    """Correspondence for Model/ReadTrace.v: on generated DAG workbooks x histories of evaluate / set_value, the set
+    of (reader, read) pairs of every evaluate call of the implementation equals the model's run_traced; and the
+    property itself on the implementation's trace (independent of the model): every pair is a declared precedent /
+    range member of the reader in the generated workbook, and dep_graph has the edge read -> reader."""
+    ensure_impl_on_path()
+    rng = ctx.rng
+    batch = []
+    for k in range(ctx.n(260, 4000)):
+        blank = k % 7 == 6
+        wb = wbgen.gen_workbook(rng, ncells=rng.randrange(5, 12), pool=wbgen.POOL if k % 3 == 2 else wbgen.CLEAN_POOL,
+                                blank_results=blank)
+        comp, trace = traced_compiler(wb.to_openpyxl())
+        ops, impl, hist = [], [], []
+        desc = [(x['addr'], x.get('value'), x.get('text')) for x in wb.nodes]
+        for _ in range(rng.randrange(6, 13)):
+            built_inputs = [i for i in wb.inputs() if wb.nodes[i]['addr'] in comp.cell_map]
+            if built_inputs and rng.random() < 0.4:
+                a = rng.choice(built_inputs)
+                v = rng.choice(wbgen.POOL if k % 3 == 2 else wbgen.CLEAN_POOL)
+                comp.set_value(wb.nodes[a]['addr'], v)
+                ops.append([1, a, enc_val(v)])
+                hist.append(['set', wb.nodes[a]['addr'], v])
+                impl.append(None)
+                continue
+            n = rng.randrange(len(wb.nodes))
+            addr = wb.nodes[n]['addr']
+            del trace[:]
+            try:
+                comp.evaluate(addr)
+            except Exception as exc:    # noqa: BLE001
+                ctx.violation(dict(call='graph-trace', args=[desc, hist + [['eval', addr]]]),
+                              f"evaluate raises {type(exc).__name__}")
+                break
+            ops.append([0, n])
+            hist.append(['eval', addr])
+            pairs = set()
+            case = dict(call='graph-trace', args=[desc, list(hist)])
+            for reader, read in trace:
+                ri, di = wb.index_of(reader), wb.index_of(read)
+                pairs.add((ri, di))
+                ctx.count(('gread', k, len(ops), reader, read), kind='graph-read:' + wb.nodes[di]['kind']
+                          if di is not None else 'graph-read:?')
+                # ---- the property on the implementation's own trace
+                if ri is None or di is None or di not in wb.nodes[ri]['deps']:
+                    ctx.violation(case, "evaluation read a cell that is neither a declared precedent of the reader nor "
+                                        "a member of the range that reads", impl=(reader, read),
+                                  expected=[wb.nodes[d]['addr'] for d in wb.nodes[ri]['deps']] if ri is not None else None)
+                elif not comp.dep_graph.has_edge(comp.cell_map[read], comp.cell_map[reader]):
+                    ctx.violation(case, "a read without the edge read -> reader in dep_graph", impl=(reader, read))
+            impl.append(pairs)
+        ctx.count(('gtrace', k), kind='graph-trace-history', sample=dict(workbook=desc, history=hist))
+        batch.append((dict(call='graph-trace', args=[desc, hist]), wb, ops, impl))
+    if not ctx.model:
+        return
+    answers = ctx.model.batch([('traces', [wb.wire(), ops]) for (_, wb, ops, _) in batch])
+    for (case, wb, ops, impl), ans in zip(batch, answers):
+        if not isinstance(ans, list) or len(ans) != len(ops) or (ans and not isinstance(ans[0], list)):
+            ctx.divergence(case, 'n/a', ans, 'Model/ReadTrace.v traces entry rejected the input')
+            continue
+        for j, (ip, m) in enumerate(zip(impl, ans)):
+            mp = {(x[0], x[1]) for x in m[1]}
+            if ip is None:
+                if mp:
+                    ctx.divergence(dict(case, step=j), set(), sorted(mp), 'Model/ReadTrace.v: set_value reads nothing')
+                continue
+            if mp != ip:
+                ctx.divergence(dict(case, step=j), sorted(ip, key=repr), sorted(mp),
+                               'Model/ReadTrace.v run_traced = (reader, read) pairs of ExcelCompiler.evaluate')
+                break
+
+
 def run(ctx):
     ctx.extra['rule'] = (
         "correspondence: PRNG formula trees of depth <= 6 rich in references (plain, $, lower case, sheet-qualified, "
@@ -353,6 +474,10 @@ def run(ctx):
         "with random parentheses and white space; oracle: PRNG workbooks (2 sheets x 9 inputs, 8-21 formulas over 20 "
         "reference-form templates incl. defined names, multi-colon, union, CSE members, chains through other formula "
         "cells); a case is non-trivial when it is a distinct formula text, (workbook, cell, read) triple, edge or "
-        "(workbook, perturbed input, formula cell) triple")
+        "(workbook, perturbed input, formula cell) triple; graph traces: PRNG single-sheet DAG workbooks of "
+        "harness/wbgen.py (5-11 cells, ranges, nested ranges) x 6-12 evaluate/set_value operations, the set of "
+        "(reader, read) pairs of every evaluate compared with Model/ReadTrace.v and checked against the generated "
+        "dependency lists and dep_graph")
     correspondence(ctx)
+    graph_traces(ctx)
     workbook_oracle(ctx)
